@@ -258,3 +258,23 @@ fn mk_socket_small() -> VirtIOSocket<KHalT<8>, T2, 64> {
     let rx = crate::queue::owning::verif_mk(rxq, bufs);
     VirtIOSocket { transport: T2, rx, tx: mk_queue(btx, 1, false, false), event: mk_queue(bev, 2, false, false), guest_cid: 3 }
 }
+
+#[kani::proof]
+fn probe_c17_credit_arith() {
+    let mut ci = ConnectionInfo::new(VsockAddr { cid: 2, port: 1 }, 1);
+    ci.peer_buf_alloc = kani::any();
+    ci.peer_fwd_cnt = kani::any();
+    ci.tx_cnt = kani::any();
+    let inflight = ci.tx_cnt.wrapping_sub(ci.peer_fwd_cnt);
+    let expect = ci.peer_buf_alloc.saturating_sub(inflight);
+    assert!(ci.peer_free() == expect);
+}
+#[kani::proof]
+fn probe_c17_fwd_wrap() {
+    let mut ci = ConnectionInfo::new(VsockAddr { cid: 2, port: 1 }, 1);
+    ci.fwd_cnt = kani::any();
+    let n: usize = kani::any(); kani::assume(n <= 4096);
+    let before = ci.fwd_cnt;
+    ci.done_forwarding(n);
+    assert!(ci.fwd_cnt == before.wrapping_add(n as u32));
+}
